@@ -408,9 +408,14 @@ def gen_concurrent(g):
                 continue
         n_sw = int(g.choice([1, 2, 3, 5, 8, 13, 21, 34]))
         schedule = [int(10 ** g.rng.uniform(0, 2.7)) for _ in range(n_sw)]
-        return {'subs': [{'op': n1, 'a': a1}, {'op': n2, 'a': a2}],
-                'schedule': schedule, 'first': int(g.rng.randint(2)),
-                'share': g.choice(['shared', 'shared', 'separate'])}
+        out = {'subs': [{'op': n1, 'a': a1}, {'op': n2, 'a': a2}],
+               'schedule': schedule, 'first': int(g.rng.randint(2)),
+               'share': g.choice(['shared', 'shared', 'separate'])}
+        if g.coin(0.2):
+            # one of the two callers crashes in the middle of its call
+            out['kill'] = {str(int(g.rng.randint(2))):
+                           int(10 ** g.rng.uniform(0, 2.8))}
+        return out
     return None
 
 
@@ -442,12 +447,20 @@ def _run_concurrent(world, idx, op):
             return call(sub['op'], ctx, sub['a'], None)
         return fn
 
-    il = interleave.Interleaver(a['schedule'], a['first'])
+    il = interleave.Interleaver(a['schedule'], a['first'],
+                                kill_at=a.get('kill'))
     res = il.run([body(s_, c_) for s_, c_ in zip(subs, ctxs)])
-    for r in res:
-        if r[0] != 'ok':
+    outs = []
+    for i, r in enumerate(res):
+        if r[0] == 'ok':
+            outs.append(r[1])
+        elif isinstance(r[1], SimulatedInterrupt) and i in il.killed:
+            outs.append(Outcome('interrupted', fired=('interrupt', il.killed[i])))
+            world.faults_fired += 1
+            world.count('fault_fired:interrupt_in_caller_thread')
+            world.add('interrupt_sites', il.killed[i])
+        else:
             raise RuntimeError(f'harness: caller thread died: {r[1]!r}')
-    outs = [r[1] for r in res]
     rng1 = seams.rng_get()
     gs1 = seams.global_state_snapshot()
     name = 'concurrent'
@@ -497,8 +510,8 @@ def _run_concurrent(world, idx, op):
         other = labels[1 - i]
         how = ('sharing trainer / aligner / model objects with it'
                if shared else 'on objects of its own')
-        if out.kind == 'skipped':
-            continue      # its model reference does not exist in this pool
+        if out.kind in ('skipped', 'interrupted'):
+            continue      # no model in this pool / this caller was crashed
         if out.kind == 'impure':
             _viol(world, 'O8', idx, name, a, f'{labels[i]}: {out.exc}')
         elif out.cls() != ref.cls():
@@ -1192,6 +1205,10 @@ def shrink_candidates(program):
             if op['a']['share'] == 'shared':
                 q = copy.deepcopy(program)
                 q['ops'][i]['a']['share'] = 'separate'
+                yield q
+            if op['a'].get('kill'):
+                q = copy.deepcopy(program)
+                del q['ops'][i]['a']['kill']
                 yield q
     def edit(i, fn):
         """Apply ``fn(target_dict)`` to op i and -- for a split job -- to every
